@@ -160,14 +160,16 @@ def h_twin(ctx):
 
 CATALOGUE = {
     "transform": ["rotate(a)", "rotate()", "matrix(1 2 3)", "matrix()", "translatex(a)", "translateY()", "scale()", "scalex()", "skewX()", "skewy(b)", "skew(1)", "skew()",
-                  "rotate(45deg,)", "translate(1,2", "rotate(1,2)", "foo(1)", "matrix(1,2,3,4,5,6,7)", "scale(1e400)", "rotate(1e400)", ")", "((", "translate(1%,2mm)", "rotate(10turn 5)"],
+                  "rotate(45deg,)", "translate(1,2", "rotate(1,2)", "foo(1)", "matrix(1,2,3,4,5,6,7)", "scale(1e400)", "rotate(1e400)", ")", "((", "translate(1%,2mm)", "rotate(10turn 5)",
+                  # lengths that cannot be resolved (no font size known), alone and followed by functions they cannot be combined with
+                  "translate(1em)", "translate(1em) translate(2)", "translate(2ex, 1) rotate(5)", "translate(1in) translate(2)", "translate(1vw, 1vh) scale(2)"],
     "fill": ["rgb(1.5,2,3)", "rgb(1,2)", "rgb()", "#12", "#1234567", "#gggggg", "hsl(1,2,3)", "hsl(a,b%,c%)", "rgba(1,2,3,x)", "url(#nothing)", "url(", "currentcolor", "",
              "rgb(300%,-5%,1e3%)", "hsl(1e400,1%,1%)", "transparent none", "12345", "-5", "rgb(1e400,0,0)"],
     "stroke": ["rgb(1.5,2,3)", "#", "none none", "url(#f)"],
     "stroke-width": ["abc", "", "-1", "1e400", "1 2", "5furlongs", "%", ".", "1e", "--1"],
     "fill-opacity": ["abc", "", "2", "-1", "1e400", "50%", "."],
-    "x": ["abc", "", "1e400", "5furlongs", ".", "1,2", "--"],
-    "width": ["abc", "", "-5", "0", "1e400", "auto"],
+    "x": ["abc", "", "1e400", "5furlongs", ".", "1,2", "--", "1em"],
+    "width": ["abc", "", "-5", "0", "1e400", "auto", "1em", "2ex"],
     "r": ["abc", "", "-5", "0", "1e400"],
     "rx": ["abc", "-5", "1e400", "200%"],
     "points": ["", "1", "1,2 3", "a,b", "1,,2", "1e400,2 3,4", ",", "1-2-3"],
